@@ -10,7 +10,7 @@ Import ListNotations.
 From Verif Require Import Common.Base Model.SampleBuilder Model.SampleBuilderSpec
   Proofs.SampleBuilderArith Proofs.SampleBuilderIter Proofs.SampleBuilder
   Proofs.SampleBuilderScan Proofs.SampleBuilderBuild Proofs.SampleBuilderFuel Proofs.SampleBuilderFifo
-  Proofs.SampleBuilderNoPanic Proofs.SampleBuilderTop.
+  Proofs.SampleBuilderNoPanic Proofs.SampleBuilderTop Proofs.SampleBuilderInside Proofs.SampleBuilderTop2.
 Open Scope N_scope.
 
 (* ---------- uint16 / uint32 arithmetic, all values ---------- *)
@@ -100,6 +100,75 @@ Theorem c31_no_nil_dereference : forall is_head is_tail unmarshal c ops,
 Proof. exact no_nil_dereference. Qed.
 Print Assumptions c31_no_nil_dereference.
 
+(* ---------- no model fault ---------- *)
+
+(* full statement: forall is_head is_tail unmarshal c ops, history_ok ops ->
+     fault (fst (run ... c ops)) = 0
+   (no loop of the model runs out of fuel, no nil slot is dereferenced, no sample is
+   built over an active window that the tail extension has just emptied).
+   Refuted for three kinds of configuration; in each a packet ends up buffered outside
+   `filled`, a later Pop extends active.tail to filled.tail = active.head, and
+   buildSample runs over the emptied window: the emitted sample has PacketTimestamp 0
+   instead of its head packet's timestamp (and the scan no longer stops at a
+   timestamp change).
+   (a) WithMaxTimeDelay, maxLate 50: purgeBuffers releases and increments filled.head
+       once more after a forced buildSample has already advanced it to filled.tail;
+       filled becomes [tail+1, tail), 65535 slots, and the Push of seq tail wraps it
+       to empty. *)
+Theorem c31_no_fault_refuted : exists is_head is_tail unmarshal c ops,
+  history_ok ops /\ fault (fst (run is_head is_tail unmarshal c ops)) <> 0 /\
+  exists x, In x (snd (run is_head is_tail unmarshal c ops)) /\ ~ sample_ts is_tail x.
+Proof.
+  exists fk_is_head, fk_is_tail, fk_unmarshal, dcfg, w_fault_delay_ops.
+  destruct fault_witness_delay as (H1 & H2 & x & Hx & Hw).
+  split; [exact H1|]. split; [exact H2|]. exists x. split; [exact Hx|apply wrong_ts_not_sample_ts; exact Hw].
+Qed.
+Print Assumptions c31_no_fault_refuted.
+
+(* (b) the same defect without max-time-delay when maxLate = 1 *)
+Theorem c31_no_fault_maxlate1_refuted : exists is_head is_tail unmarshal c ops,
+  c_maxLateTs c = 0 /\ c_maxLate c = 1 /\
+  history_ok ops /\ fault (fst (run is_head is_tail unmarshal c ops)) <> 0 /\
+  exists x, In x (snd (run is_head is_tail unmarshal c ops)) /\ ~ sample_ts is_tail x.
+Proof.
+  exists fk_is_head, fk_is_tail, fk_unmarshal, (wcfg 1), w_fault_late1_ops.
+  destruct fault_witness_late1 as (H1 & H2 & x & Hx & Hw).
+  split; [reflexivity|]. split; [reflexivity|].
+  split; [exact H1|]. split; [exact H2|]. exists x. split; [exact Hx|apply wrong_ts_not_sample_ts; exact Hw].
+Qed.
+Print Assumptions c31_no_fault_maxlate1_refuted.
+
+(* (c) maxLate = 21845 (the bound of the partial theorem is 21844): filled.count() is
+   the shorter way round the ring, so a window of more than 65536 - maxLate slots is
+   never purged; it grows to 65535 slots and the next Push wraps it to empty with 20
+   packets still buffered.  The sample of seq 0, 1 (timestamp 5000) is emitted with
+   PacketTimestamp 0. *)
+Theorem c31_no_fault_large_maxlate_refuted : exists is_head is_tail unmarshal c ops,
+  c_maxLateTs c = 0 /\ c_maxLate c = 21845 /\
+  history_ok ops /\ fault (fst (run is_head is_tail unmarshal c ops)) <> 0 /\
+  exists x hp rest, In x (snd (run is_head is_tail unmarshal c ops)) /\
+    s_pkts x = hp :: rest /\ s_ts x <> p_ts hp.
+Proof.
+  exists fk_is_head, fk_is_tail, fk_unmarshal, (wcfg 21845), w_fault_wrap_ops.
+  destruct fault_witness_wrap as (H1 & H2 & x & Hx & Hp & Ht).
+  split; [reflexivity|]. split; [reflexivity|].
+  split; [exact H1|]. split; [exact H2|].
+  exists x, (wp 0 0 5000 1), [wp 1 1 5000 2]. split; [exact Hx|]. split; [exact Hp|].
+  rewrite Ht. vm_compute. discriminate.
+Qed.
+Print Assumptions c31_no_fault_large_maxlate_refuted.
+
+(* What is proved: without max-time-delay and with maxLate 0 or 2..21844, no history
+   raises a model fault.  The proof carries the invariant "every buffered key is
+   Inside filled, and between operations filled spans at most maxLate slots" through
+   Push, Pop, Flush and every iteration of the purge loop. *)
+Theorem c31_no_fault_partial : forall is_head is_tail unmarshal c ops,
+  c_maxLateTs c = 0 -> c_maxLate c <> 1 -> c_maxLate c <= 21844 ->
+  history_ok ops ->
+  fault (fst (run is_head is_tail unmarshal c ops)) = 0.
+Proof. intros. apply no_fault_partial; [repeat split|]; assumption. Qed.
+Print Assumptions c31_no_fault_partial.
+
 (* ---------- clause 1: every emitted sample ---------- *)
 
 (* Over every history, with no further condition: every sample returned by a
@@ -143,6 +212,15 @@ Theorem c31_sample_timestamp_partial : forall is_head is_tail unmarshal c ops x,
   sample_wf is_head is_tail unmarshal (pushed_of ops) x.
 Proof. exact emitted_wf. Qed.
 Print Assumptions c31_sample_timestamp_partial.
+
+(* the same without the fault guard, on the configurations of c31_no_fault_partial *)
+Theorem c31_sample_wellformed_partial : forall is_head is_tail unmarshal c ops x,
+  c_maxLateTs c = 0 -> c_maxLate c <> 1 -> c_maxLate c <= 21844 ->
+  history_ok ops ->
+  In x (snd (run is_head is_tail unmarshal c ops)) ->
+  sample_wf is_head is_tail unmarshal (pushed_of ops) x.
+Proof. intros. apply (emitted_wf_cfg is_head is_tail unmarshal c); [repeat split| |]; assumption. Qed.
+Print Assumptions c31_sample_wellformed_partial.
 
 (* full timestamp clause: forall ... x, In x (snd (run ... ops)) -> one_timestamp x.
    Refuted: buildSample tests the partition-tail flag before the timestamp
@@ -263,3 +341,9 @@ Example c31_sample_run_nontrivial :
 Proof.
   split; [apply complete_witness|]. split; vm_compute; reflexivity.
 Qed.
+
+(* the configuration guard of c31_no_fault_partial holds of the usual configuration
+   (maxLate 50, no max-time-delay), on which w_complete_ops emits two samples *)
+Example c31_no_fault_guard_nontrivial :
+  c_maxLateTs (wcfg 50) = 0 /\ c_maxLate (wcfg 50) <> 1 /\ c_maxLate (wcfg 50) <= 21844.
+Proof. exact fault_free_cfg_50. Qed.
